@@ -16,7 +16,7 @@ EXTENDS Integers, Sequences, FiniteSets, TLC
 
 CONSTANTS Bug, MaxReq
 
-Routes == {"deleteSnapshot", "plainLocked", "noLock", "replicaStart", "lockedBackendCall"}
+Routes == {"deleteSnapshot", "plainLocked", "noLock", "replicaStart", "lockedBackendCall", "readLocked"}
 \* "backendfails": a well-formed request whose call to a replica fails (the handler's error path)
 Classes == {"valid", "malformed", "backendfails"}
 
@@ -35,36 +35,49 @@ Prog(r, c) ==
             IF c = "backendfails" /\ "relockOnError" \in Bug
             THEN <<"lock", "lock", "unlock", "unlock", "end">>
             ELSE <<"lock", "unlock", "end">>
+      \* replica GET stats / volusage: the REST handler holds the read lock around a Server method
+      \* that takes no lock itself.  "nestedRLock": the method takes the read lock again -- with a
+      \* writer-preferring RWMutex a write-locking request arriving in between blocks both
+      [] r = "readLocked" ->
+            IF "nestedRLock" \in Bug THEN <<"rlock", "rlock", "runlock", "runlock", "end">>
+            ELSE <<"rlock", "runlock", "end">>
       [] r = "replicaStart" ->
             IF "blockingSend" \in Bug THEN <<"lock", "send", "unlock", "end">>
             ELSE <<"lock", "trysend", "unlock", "end">>
 
-VARIABLES alive, lockHeld, queue, inflight, nreq
+VARIABLES alive, lockHeld, readers, queue, inflight, nreq
 
-vars == <<alive, lockHeld, queue, inflight, nreq>>
+vars == <<alive, lockHeld, readers, queue, inflight, nreq>>
 
-Init == alive = TRUE /\ lockHeld = FALSE /\ queue = 0 /\ inflight = {} /\ nreq = 0
+Init == alive = TRUE /\ lockHeld = FALSE /\ readers = 0 /\ queue = 0 /\ inflight = {} /\ nreq = 0
+
+\* sync.RWMutex prefers writers: once a writer waits, new readers queue behind it
+WriterWaiting == \E h \in inflight : h.prog[h.pc] = "lock" /\ ~h.holds
 
 Arrive(r, c) ==
     /\ alive /\ nreq < MaxReq /\ Cardinality(inflight) < 2
     /\ inflight' = inflight \cup {[id |-> nreq + 1, prog |-> Prog(r, c), pc |-> 1, holds |-> FALSE]}
     /\ nreq' = nreq + 1
-    /\ UNCHANGED <<alive, lockHeld, queue>>
+    /\ UNCHANGED <<alive, lockHeld, readers, queue>>
 
 StepOf(h) ==
     LET s == h.prog[h.pc]
         adv(x) == (inflight \ {h}) \cup {[h EXCEPT !.pc = h.pc + 1, !.holds = x]}
     IN /\ alive
-       /\ CASE s = "lock" -> /\ ~lockHeld /\ lockHeld' = TRUE /\ inflight' = adv(TRUE)
-                             /\ UNCHANGED <<alive, queue>>
+       /\ CASE s = "lock" -> /\ ~lockHeld /\ readers = 0 /\ lockHeld' = TRUE /\ inflight' = adv(TRUE)
+                             /\ UNCHANGED <<alive, readers, queue>>
             [] s = "unlock" -> IF lockHeld
-                               THEN /\ lockHeld' = FALSE /\ inflight' = adv(FALSE) /\ UNCHANGED <<alive, queue>>
-                               ELSE /\ alive' = FALSE /\ UNCHANGED <<lockHeld, queue, inflight>>   \* fatal error
+                               THEN /\ lockHeld' = FALSE /\ inflight' = adv(FALSE) /\ UNCHANGED <<alive, readers, queue>>
+                               ELSE /\ alive' = FALSE /\ UNCHANGED <<lockHeld, readers, queue, inflight>>   \* fatal error
+            [] s = "rlock" -> /\ ~lockHeld /\ ~WriterWaiting /\ readers' = readers + 1
+                              /\ inflight' = adv(h.holds) /\ UNCHANGED <<alive, lockHeld, queue>>
+            [] s = "runlock" -> /\ readers' = readers - 1 /\ inflight' = adv(h.holds)
+                                /\ UNCHANGED <<alive, lockHeld, queue>>
             [] s = "send" -> /\ queue < 5 /\ queue' = queue + 1 /\ inflight' = adv(h.holds)
-                             /\ UNCHANGED <<alive, lockHeld>>
+                             /\ UNCHANGED <<alive, lockHeld, readers>>
             [] s = "trysend" -> /\ queue' = IF queue < 5 THEN queue + 1 ELSE queue
-                                /\ inflight' = adv(h.holds) /\ UNCHANGED <<alive, lockHeld>>
-            [] s = "end" -> /\ inflight' = inflight \ {h} /\ UNCHANGED <<alive, lockHeld, queue>>
+                                /\ inflight' = adv(h.holds) /\ UNCHANGED <<alive, lockHeld, readers>>
+            [] s = "end" -> /\ inflight' = inflight \ {h} /\ UNCHANGED <<alive, lockHeld, readers, queue>>
        /\ UNCHANGED nreq
 
 Next == \/ \E r \in Routes : \E c \in Classes : Arrive(r, c)
@@ -73,7 +86,9 @@ Next == \/ \E r \in Routes : \E c \in Classes : Arrive(r, c)
 Spec == Init /\ [][Next]_vars /\ WF_vars(\E h \in inflight : StepOf(h))
 
 NoDoubleUnlock == alive
-NoLockLeak == (inflight = {}) => ~lockHeld
+NoLockLeak == (inflight = {}) => (~lockHeld /\ readers = 0)
+\* the handlers in flight can always make a step (no cycle reader -> pending writer -> reader)
+NoRWDeadlock == (inflight # {} /\ alive) => \E h \in inflight : ENABLED StepOf(h)
 \* no handler sits forever on a full queue while it holds the lock
 NoBlockedHandler == \A h \in inflight : ~(h.prog[h.pc] = "send" /\ queue >= 5 /\ h.holds)
 \* no handler waits for a mutex it holds itself (sync.RWMutex is not re-entrant)
